@@ -355,7 +355,7 @@ class Harness:
             from . import interpose
             interpose.install()
             inj = interpose.FaultInjector(fault.get('k'))
-            rctx.fault_mode = 'catch' if fault.get('catch') else 'nocatch'
+            rctx.fault_mode = {True: 'catch', 'root': 'catch_root'}.get(fault.get('catch'), 'nocatch')
 
             def on_fire(_i):
                 rctx.fault_call = rctx.call_stack[-1] if rctx.call_stack else '<top>'
@@ -389,8 +389,8 @@ class Harness:
         self._fault_fired_now = fault_fired
         if fault is not None:
             self.last_fault = {'count': inj.count, 'fired': inj.fired, 'call': rctx.fault_call, 'labels': inj.labels}
-            if fault_fired and rctx.fault_call != '<top>' and rctx.fault_mode == 'catch':
-                mctx.fault_mode = 'catch'
+            if fault_fired and rctx.fault_call != '<top>' and rctx.fault_mode in ('catch', 'catch_root'):
+                mctx.fault_mode = rctx.fault_mode
                 mctx.fault_call = rctx.fault_call
                 mb.fault_inv = rctx.fault_call
                 mret = run_model()
@@ -404,16 +404,28 @@ class Harness:
             ntasks = max(len(st_[1]) for blk in [prog['root']] + [f['body'] for f in prog['funcs'].values()]
                          for st_ in dsl.iter_stmts(blk) if st_[0] == 'par')
             first = None
-            for order in itertools.permutations(range(ntasks)):
-                mctx = dsl.Ctx('model', prog, versions, ctx_step, self.universe, self.masked)
-                mctx.extra['par_order'] = list(order)
-                mb = ModelBuild(pre_model, self.prev, self.cache, versions, self.R)
-                mret = run_model()
-                if first is None:
-                    first = (mctx, mb, mret)
-                if _outcome_key(mret) == _outcome_key(rret):
-                    self.stats['par_order_%s' % ''.join(map(str, order))] += 1
+            best = None
+            real_inv = collections.Counter(l['inv'] for l in rctx.log)
+            # second round: the reuse of a record may also be rejected because a concurrent task claimed a key inside it
+            for implied in (False, True):
+                for order in itertools.permutations(range(ntasks)):
+                    mctx = dsl.Ctx('model', prog, versions, ctx_step, self.universe, self.masked)
+                    mctx.extra['par_order'] = list(order)
+                    mb = ModelBuild(pre_model, self.prev, self.cache, versions, self.R)
+                    mb.implied_dup = implied
+                    mret = run_model()
+                    if first is None:
+                        first = (mctx, mb, mret)
+                    if _outcome_key(mret) == _outcome_key(rret):
+                        # several references may explain the outcome: take the one that claims the fewest cache hits
+                        extra = sum((collections.Counter(l['inv'] for l in mctx.log) - real_inv).values())
+                        if best is None or extra < best[0]:
+                            best = (extra, (mctx, mb, mret), 'par_order_%s%s' % (''.join(map(str, order)), '_implied' if implied else ''))
+                if best is not None and best[0] == 0:
                     break
+            if best is not None:
+                mctx, mb, mret = best[1]
+                self.stats[best[2]] += 1
             else:
                 mctx, mb, mret = first
         post = snapshot(self.R)
@@ -1042,7 +1054,13 @@ def justification(cur, prev_idx, prev_versions, versions, intact, masked, exists
             # the record says "no file was produced" (comparison result: none); something is there now
             return 'failed-output-now-exists'
     if len(p.events) != len(cur.events) or not all(events_equal(x, y) for x, y in zip(p.events, cur.events)):
-        return 'trace-differs:' + first_difference(p, cur)
+        fd = first_difference(p, cur)
+        ev = _first_diff_event(p, cur)
+        if ev is not None and masked and _l2_affected(ev, masked):
+            # the first differing answer depends on a directory that (also) holds the cache file: the model
+            # cannot pin down when the library creates / sees it (latitude L2)
+            return 'undecidable-L2'
+        return 'trace-differs:' + fd
     # latitudes: answers whose value the model cannot pin down
     for n in p.walk():
         for e in n.events:
@@ -1050,11 +1068,33 @@ def justification(cur, prev_idx, prev_versions, versions, intact, masked, exists
                 continue
             if e[1] == 'get_size' and e[4] == 'DIR':
                 return 'undecidable-L3'
-            if masked and e[1] in ('list_dir', 'walk', 'walk_bu', 'exists', 'is_dir', 'is_file', 'get_size', 'read'):
-                q = e[2]
-                for m in masked:
-                    if q == m or os.path.dirname(m) == q or (e[1] in ('walk', 'walk_bu') and (m + '/').startswith(q + '/')):
-                        return 'undecidable-L2'
+            if masked and _l2_affected(e, masked):
+                return 'undecidable-L2'
+    return None
+
+
+def _l2_affected(e, masked):
+    if e[1] not in ('list_dir', 'walk', 'walk_bu', 'exists', 'is_dir', 'is_file', 'get_size', 'read'):
+        return False
+    q = e[2]
+    for m in masked:
+        if q == m or os.path.dirname(m) == q or (e[1] in ('walk', 'walk_bu') and (m + '/').startswith(q + '/')):
+            return True
+    return False
+
+
+def _first_diff_event(p, c):
+    """The first simple event of p whose counterpart in c differs only in its answer (None otherwise)."""
+    for x, y in zip(p.events, c.events):
+        if isinstance(x, Node) and isinstance(y, Node):
+            if not events_equal(x, y):
+                if (x.key, x.fname, x.raised, x.setup_failed) != (y.key, y.fname, y.raised, y.setup_failed):
+                    return None
+                return _first_diff_event(x, y)
+        elif isinstance(x, Node) or isinstance(y, Node):
+            return None
+        elif not events_equal(x, y):
+            return x if x[1] == y[1] and x[2] == y[2] else None
     return None
 
 
